@@ -83,3 +83,19 @@ impl Decimal {
     #[verifier::external_body]
     pub fn min(self, o: Decimal) -> (r: Decimal) ensures r@ == (if self@ <= o@ { self@ } else { o@ }), r == self || r == o { unimplemented!() }
 }
+impl Decimal {
+    #[verifier::external_body] pub exec const ZERO: Decimal ensures Self::ZERO@ == 0real { Decimal { _p: () } }
+    #[verifier::external_body] pub exec const ONE: Decimal ensures Self::ONE@ == 1real { Decimal { _p: () } }
+    #[verifier::external_body] pub exec const TWO: Decimal ensures Self::TWO@ == 2real { Decimal { _p: () } }
+    // Decimal::MAX / Decimal::MIN: uninterpreted extreme constants with MIN < 0 < MAX
+    #[verifier::external_body] pub exec const MAX: Decimal ensures Self::MAX@ == dec_max(), { Decimal { _p: () } }
+    #[verifier::external_body] pub exec const MIN: Decimal ensures Self::MIN@ == -dec_max(), { Decimal { _p: () } }
+    // MathematicalOps::sqrt: Some(r) with r*r == x, r >= 0 for x >= 0; None for negative x
+    #[verifier::external_body]
+    pub fn sqrt(&self) -> (r: Option<Decimal>)
+        ensures self@ < 0real ==> r is None,
+                self@ >= 0real ==> r is Some && r->Some_0@ >= 0real && r->Some_0@ * r->Some_0@ == self@,
+    { unimplemented!() }
+}
+pub uninterp spec fn dec_max() -> real;
+pub broadcast axiom fn axiom_dec_max_pos() ensures #[trigger] dec_max() > 0real;
